@@ -426,9 +426,11 @@ Proof.
       destruct (board_full p || out_of_pieces p) eqn:E; [|reflexivity].
       exfalso. apply He, HE. reflexivity.
   - intros <-. destruct (has_road p) as [c|] eqn:Eh.
-    + apply out_road. apply HR. assumption.
-    + apply HR in Eh. destruct (board_full p || out_of_pieces p) eqn:E.
-      * rewrite flats_winner_verdict. apply out_flats; try assumption.
+    + apply out_road. apply HR. reflexivity.
+    + assert (Hnone : road_verdict p None) by (apply HR; reflexivity).
+      destruct (board_full p || out_of_pieces p) eqn:E.
+      * rewrite flats_winner_verdict. apply out_flats.
+        -- assumption.
         -- apply HE. reflexivity.
         -- apply flat_count_spec; assumption.
         -- apply flat_count_spec; assumption.
@@ -446,3 +448,71 @@ Proof.
   - left. apply color_has_road_spec; assumption.
   - right. apply not_road_false; assumption.
 Qed.
+
+(* ---------- Examples (3x3; board index = y*3 + x) ---------- *)
+(* White: a1 b1, capstone on b2 (on top of a black flat), c2: a winding road
+   left to right; it is Black's turn (ply 9), so White just moved. *)
+Definition ex_road : position :=
+  P 3 6 0 7 1 9 [[WF]; [WF]; []; [BF]; [WC; BF]; [WF]; []; [BS]; []].
+(* the same with a white WALL on b2, and with the white flat on b2 buried
+   under a black flat *)
+Definition ex_wall : position :=
+  P 3 6 0 7 1 9 [[WF]; [WF]; []; [BF]; [WS; BF]; [WF]; []; [BS]; []].
+Definition ex_buried : position :=
+  P 3 6 0 7 1 9 [[WF]; [WF]; []; [BF]; [BF; WF]; [WF]; []; [BS]; []].
+(* a full board without a road: top flats 2 : 2 (buried flats would make it 4 : 3) *)
+Definition ex_full : position :=
+  P 3 3 0 4 1 12 [[WF]; [BF]; [WS]; [BF; WF; WF]; [WF]; [BS]; [WS]; [BS; BF]; [WC]].
+(* both colours have a road (White along rank 1, Black along rank 3) *)
+Definition ex_both (pl : Z) : position :=
+  P 3 7 0 7 0 pl [[WF]; [WF]; [WF]; []; []; []; [BF]; [BF]; [BC]].
+
+Example ex_road_wf : wf_pos ex_road. Proof. split; [vm_compute; discriminate|reflexivity]. Qed.
+Example ex_wall_wf : wf_pos ex_wall. Proof. split; [vm_compute; discriminate|reflexivity]. Qed.
+Example ex_buried_wf : wf_pos ex_buried. Proof. split; [vm_compute; discriminate|reflexivity]. Qed.
+Example ex_full_wf : wf_pos ex_full. Proof. split; [vm_compute; discriminate|reflexivity]. Qed.
+Example ex_both_wf pl : wf_pos (ex_both pl). Proof. split; [vm_compute; discriminate|reflexivity]. Qed.
+
+(* the road exhibited directly against the spec (no model involved) *)
+Example ex_road_path : spans ex_road White true.
+Proof.
+  exists (0, 0), [(1, 0); (1, 1); (2, 1)]. split; [|split; [|split]].
+  - repeat constructor; simpl; try lia;
+      (eexists; eexists; split; [reflexivity|split; [reflexivity|auto]]).
+  - simpl. unfold orth_adjacent. simpl. lia.
+  - reflexivity.
+  - reflexivity.
+Qed.
+Example ex_road_white : road ex_road White. Proof. left. exact ex_road_path. Qed.
+Example ex_road_model : winner ex_road = (Some White, Some Road) /\ has_road ex_road = Some White.
+Proof. split; vm_compute; reflexivity. Qed.
+Example ex_road_outcome : outcome ex_road (Some White, Some Road).
+Proof. apply winner_spec; [exact ex_road_wf|vm_compute; reflexivity]. Qed.
+
+Example ex_wall_no_road : ~ road ex_wall White /\ outcome ex_wall (None, None).
+Proof.
+  split.
+  - apply not_road_false; [exact ex_wall_wf|vm_compute; reflexivity].
+  - apply winner_spec; [exact ex_wall_wf|vm_compute; reflexivity].
+Qed.
+Example ex_buried_no_road : ~ road ex_buried White /\ ~ road ex_buried Black /\ outcome ex_buried (None, None).
+Proof.
+  split; [|split].
+  - apply not_road_false; [exact ex_buried_wf|vm_compute; reflexivity].
+  - apply not_road_false; [exact ex_buried_wf|vm_compute; reflexivity].
+  - apply winner_spec; [exact ex_buried_wf|vm_compute; reflexivity].
+Qed.
+Example ex_full_draw :
+  top_flats ex_full White 2 /\ top_flats ex_full Black 2 /\ all_occupied ex_full /\
+  outcome ex_full (None, Some Flats).
+Proof.
+  split; [|split; [|split]].
+  - exact (flat_count_spec ex_full White ex_full_wf).
+  - exact (flat_count_spec ex_full Black ex_full_wf).
+  - apply board_full_spec; [exact ex_full_wf|vm_compute; reflexivity].
+  - apply winner_spec; [exact ex_full_wf|vm_compute; reflexivity].
+Qed.
+(* both roads: the player who just moved wins, for either parity of ply *)
+Example ex_both_mover :
+  outcome (ex_both 10) (Some Black, Some Road) /\ outcome (ex_both 11) (Some White, Some Road).
+Proof. split; (apply winner_spec; [apply ex_both_wf|vm_compute; reflexivity]). Qed.
